@@ -204,7 +204,7 @@ pub fn project(w: &World) -> Value {
         "ibc": {"next": w.ibc_next, "fly": fly},
         "nat": {"bal": natb, "lst": natl},
         "led": {"swept": num(w.led.swept), "radjN": inum(w.led.radj_n), "radjL": inum(w.led.radj_l),
-                "paid": paid, "wdl": wdl, "deliv": num(w.led.deliv), "honest": w.led.honest, "forced": w.led.forced},
+                "paid": paid, "wdl": wdl, "deliv": num(w.led.deliv), "honest": w.led.honest, "forced": w.led.forced, "repointed": w.led.repointed},
     })
 }
 
